@@ -9,7 +9,7 @@
 (*          "Quotient", ...; "V" for a verification rule),                                             *)
 (*    ch |-> <<children names>>, atom |-> is an atom, sz |-> size of the atom's object]               *)
 (* and a set of names of (truly) empty classes, which are ignored as children.                        *)
-(* Two classes are related iff, after stepping over one equivalence, their rules have the same kind   *)
+(* Two classes are related iff, after stepping over equivalences, their rules have the same kind       *)
 (* and the same number of non-empty children, and the children can be paired off in related pairs     *)
 (* (in any order for unions and products; the first child - the class something is taken away from -  *)
 (* in place for complements and quotients); two leaves are related iff both are atoms of one size.    *)
@@ -18,7 +18,10 @@
 (* greedy one succeeds - no search over permutations is needed.                                        *)
 EXTENDS Naturals, Sequences, FiniteSets, FiniteSetsExt, TLC
 DropAtB(sq, i) == SubSeq(sq, 1, i - 1) \o SubSeq(sq, i + 1, Len(sq))
-CurrB(sp, c) == IF sp[c].eq THEN sp[c].ch[1] ELSE c
+\* the class a class stands for: equivalences are stepped over (a chain of them is one equivalence path in a specification)
+RECURSIVE CurrF(_, _, _)
+CurrF(sp, c, fuel) == IF fuel = 0 \/ c \notin DOMAIN sp \/ ~sp[c].eq THEN c ELSE CurrF(sp, sp[c].ch[1], fuel - 1)
+CurrB(sp, c) == CurrF(sp, c, Cardinality(DOMAIN sp))
 NEB(sp, E, c) == SelectSeq(sp[c].ch, LAMBDA x : x \notin E)
 Ordered(k) == k \in {"Complement", "Quotient"}
 LocalB(spA, EA, spB, EB, a, b) ==
